@@ -68,6 +68,21 @@ def run(ctx):
         bw, tb = calcs[w]
         be = bitarray(list(bits), endian="big")
         le = bitarray(list(bits), endian="little")
+        if len(obs) % 9 == 4:
+            # a refused call first (an argument of the wrong kind, whatever it does is outside the statement): the engines and the
+            # front ends' singletons must be as good as new for the ordinary call after it
+            for eng in (bw, tb):
+                for bad in (None, [0, 1, None, 1], "0101", 5):
+                    try:
+                        eng.calculate_checksum(bad)
+                    except Exception:  # noqa
+                        pass
+            for f_, a_ in ((CRC8.calculate, (None,)), (CRC16.calculate, (b"\x01\x02", None)), (CRC16.calculate, ([1, None, 3], CrcMasks.CSBK)),
+                           (CRC32.calculate, ([1, None],)), (CRC9.calculate_from_parts, (b"\x01\x02", None, CrcMasks.Rate12DataContinuation))):
+                try:
+                    f_(*a_)
+                except Exception:  # noqa
+                    pass
         cval = ba2int(bw.calculate_checksum(be.copy()))
         others = [cval ^ 1, cval ^ (1 << (w - 1)), cval + (1 << w), cval | (1 << (w + 5)), cval + (1 << 40)] + wrongs(cval, w)
         verify_same = bool(bw.verify_checksum(be.copy(), cval)) and bool(tb.verify_checksum(be.copy(), cval))
